@@ -355,6 +355,8 @@ struct L2Sim : Sim {
                             n_flush = strfmt("_%s_mb_mgr_flush_%s", d.name, f.name.c_str());
                 n_submit = addr_to_sym((uintptr_t) f.submit);
                 n_submit = n_submit.substr(0, n_submit.rfind('+'));
+                n_init = addr_to_sym((uintptr_t) f.init);
+                n_init = n_init.substr(0, n_init.rfind('+'));
                 if (f.name == "sb_sse4") {
                         n_init = "_sha512_sb_mgr_init_sse4";
                         n_submit = "_sha512_sb_mgr_submit_sse4";
